@@ -31,6 +31,6 @@ def errno_of(kind):
     """reason code for the error kind of the last attempt"""
     if kind == 1:
         return TIMEOUT_ERROR
-    if kind == 2:
+    if kind == 2 or kind == 4:       # garbled, or the field went away: no response could be received
         return RECEIVE_ERROR
     return PROTOCOL_ERROR
